@@ -14,12 +14,14 @@ namespace AsherahVerif.Env
 /-! ### histories -/
 
 /-- the operations the C04/C05/C20 statements range over: the metastore accepts writes (no fault
-tokens, no out-of-band damage of a stored row) and `GetSession` is a method of an existing factory. -/
+tokens, no out-of-band damage of a stored row), `GetSession` is a method of an existing factory,
+and the clock is past the first precision window of the Unix epoch, so that no key is stamped `0`
+(`Created == 0` is the SDK's encoding of "latest", key_cache.go `read`/`write`). -/
 def allowed (w : World) : Op → Bool
   | .newFactory _ _ _ _ _ => true
   | .getSession f _ _ _ => decide (f < w.facs.length)
-  | .encrypt _ _ fl => fl.isEmpty
-  | .decrypt _ _ fl => fl.isEmpty
+  | .encrypt s _ fl => fl.isEmpty && decide (0 < keyTimestamp w.now (sessionCtx w s).pol.precision)
+  | .decrypt s _ fl => fl.isEmpty && decide (0 < keyTimestamp w.now (sessionCtx w s).pol.precision)
   | .closeSession _ => true
   | .closeFactory _ => true
   | .advance _ => true
